@@ -335,6 +335,25 @@ def wl_counting(ctx, rng, case):
                 ctx.count("counting_set_operation_count_checks")
                 if max(bl.cells_of(res)) >= 2**32 - 1:
                     ctx.count("counting_set_operation_results_with_pinned_counters")
+                elif res.elements_added >= 0:
+                    # the RESULT stays in use: from its documented starting count (the estimate) on, additions add and removals subtract what
+                    # they put in / take out - also when that carries the counter below zero (the estimate may be far below the multiplicities)
+                    n0 = res.elements_added
+                    for _ in range(rng.randint(1, 4)):
+                        k3 = rng.choice(keys)
+                        pos = [h % res.number_bits for h in res.hashes(k3)]
+                        held = min(bl.cells_of(res)[i] for i in pos)
+                        if held and len(set(pos)) == len(pos) and rng.random() < 0.7:
+                            n3 = rng.randint(1, held)
+                            res.remove(k3, n3)
+                            n0 -= n3
+                        else:
+                            n3 = rng.randint(1, 3)
+                            res.add(k3, n3)
+                            n0 += n3
+                        ctx.check(res.elements_added == n0, f"element count of a counting {op} result that stays in use is not its starting count plus additions minus removals",
+                                  got=res.elements_added, want=n0)
+                    ctx.count("counting_set_operation_results_used_further")
         else:
             continue
         total = sum(out.values()) - eaten
